@@ -1106,6 +1106,10 @@ class DiskRefsContainer(RefsContainer):
         ):
             # No cache: no peeled refs were read, or this ref is loose
             return None
+        if self.read_loose_ref(name) is not None:
+            # A loose ref overrides the packed one; the peeled value in
+            # packed-refs belongs to the packed value.
+            return None
         if name in self._peeled_refs:
             return self._peeled_refs[name]
         else:
